@@ -123,7 +123,7 @@ pub fn boot(max_msgs: usize, sorted_only: bool) -> impl Strategy<Value = Boot> {
     (
         prop_oneof![2 => Just(1_000u64), 4 => 1_000u64..30 * S, 2 => 30 * S..400 * S],
         prop_oneof![3 => Just(0u64), 4 => 0u64..5 * S, 2 => 0u64..120 * S],
-        prop_oneof![4 => Just(600_000u32), 2 => Just(100_000u32), 1 => Just(40_000_000u32)],
+        prop_oneof![8 => Just(600_000u32), 4 => Just(100_000u32), 2 => Just(40_000_000u32), 1 => Just(430_000_000u32), 1 => Just(u32::MAX)],
         any::<bool>(),
     )
         .prop_flat_map(move |(off_us, delay_us, max_ts, sorted)| {
@@ -180,7 +180,8 @@ pub fn ev(n_ecus: u8) -> impl Strategy<Value = Ev> {
     (
         0u8..n_ecus,
         prop_oneof![6 => 0i64..2_000_000, 2 => 0i64..30_000_000, 1 => 0i64..200_000_000, 1 => -5_000_000i64..0],
-        0u8..8,
+        // 8: persistent suspend shift, 9: garbage timestamp near u32::MAX, 10: host clock set back to 1970
+        prop_oneof![32 => 0u8..8, 3 => Just(8u8), 2 => Just(9u8), 1 => Just(10u8)],
         prop_oneof![Just(0u32), 0u32..50_000, 0u32..2_000_000, 0u32..20_000_000],
         prop_oneof![24 => Just(0u8), 2 => Just(1u8), 2 => Just(2u8), 1 => Just(3u8), 1 => Just(4u8)],
     )
@@ -194,6 +195,10 @@ pub fn build_messy(evs: &[Ev]) -> Vec<DltMessage> {
     let mut out = vec![];
     for (i, e) in evs.iter().enumerate() {
         clock = (clock as i64 + e.drt).max(1) as u64;
+        if e.tsmode == 10 {
+            // the recording host's clock jumps back to (shortly after) 1970: timestamps may exceed the reception time
+            clock = 1 + e.tsval as u64 * 50;
+        }
         let ei = (e.ecu % 8) as usize;
         let adv = clock.saturating_sub(last_clock[ei]);
         last_clock[ei] = clock;
@@ -207,6 +212,13 @@ pub fn build_messy(evs: &[Ev]) -> Vec<DltMessage> {
             }
             5 => 0,
             6 => e.tsval,
+            8 => {
+                // the ECU was suspended: its clock stays behind from now on (>= 10 s)
+                ecu_ts[ei] = ecu_ts[ei].saturating_sub(10 * S + (e.tsval as u64 * 100) % (120 * S));
+                (ecu_ts[ei] / 100) as u32
+            }
+            9 => u32::MAX - e.tsval % 1000,
+            10 => (ecu_ts[ei] / 100) as u32,
             _ => ((ecu_ts[ei] / 100) as u32).saturating_sub(e.tsval % 700_000), // buffered older msg (<= 70s)
         };
         let mut m = DltMessage {
